@@ -164,6 +164,7 @@ def harness_build(name, features=None, extra_env=None, variant=None, no_default=
             gen_harness_login.generate()
             gen_harness_login.generate_async()
             gen_harness_login.generate_collective()
+            gen_harness_login.generate_expect()
         if not os.path.exists(os.path.join(crate, "Cargo.lock")) and os.path.exists(lock_src):
             subprocess.run(["cp", lock_src, os.path.join(crate, "Cargo.lock")])
         cmd = ["cargo", "build", "--offline"]
